@@ -21,7 +21,7 @@ func (c10) Budget(tier string) (int, int) {
 	if tier == "thorough" {
 		return 5000000, 600
 	}
-	return 40000, 25
+	return 24000, 90
 }
 func (c10) Rule() string {
 	return "seeded scenarios of 1-6 operations drawn from the whole exported API on hostile documents (nesting 10,001..1,000,000 in every bracket mixture, unbalanced openers, megabyte runs of one token, every truncation of small documents, random bytes, mutations) with: a handler that returns integers from the hostile catalogue (negative, MinInt, exact+-1, mid-token, len, len+1, 2*len, 2^31-1, 2^32, MaxInt/2, MaxInt-k incl. the values that wrap p+pp) or errors or re-enters the library, at every callback; a Buffer whose stack is scribbled and resized between calls and inside callbacks; dirty destination slices. Safety invariants are checked after every operation; a per-run watchdog turns non-termination into a finding. A run is non-trivial when a fault fired; distinct = distinct hashes of (operation, document class, outcome class, decisions)."
